@@ -133,8 +133,8 @@ func hook(p *ansi.Parser, point int, pv any) {
 	}
 	a := arrival{point: point, panicked: pv, wake: make(chan struct{})}
 	over := func() {
-		// the schedule is over: callbacks still report that they started / returned (or panicked)
-		if point == 30 || point == 39 {
+		// the schedule is over: callbacks still report that they started / returned (or panicked), run that it panicked
+		if point == 30 || point == 39 || (point == 19 && pv != nil) {
 			select {
 			case c.late <- a:
 			default:
@@ -153,7 +153,7 @@ func hook(p *ansi.Parser, point int, pv any) {
 		over()
 		return
 	}
-	if point == 29 || point == 39 {
+	if point == 29 || point == 39 || point == 19 {
 		return // the goroutine is about to return
 	}
 	select {
@@ -215,6 +215,7 @@ func runSchedule(labels []string) (actual []string, obs string, unplanned int) {
 		extraCbs  = 0
 		moved     = "" // "main", "cb<k>": who the scheduler waits for
 		movedDone = false
+		mainDead  = false // run() panicked (reported by the deferred yield point 19): the channel will never be closed
 	)
 	take := func(seq ansi.Sequence, ok bool) {
 		if !ok {
@@ -228,6 +229,19 @@ func runSchedule(labels []string) (actual []string, obs string, unplanned int) {
 	// place: record an arrival
 	place := func(a arrival, waitingX bool) {
 		switch {
+		case a.point == 19:
+			// deferred at the top of run(): after a normal return (point 29 came first) nothing to do; after a panic
+			// run() is gone without EOF and without closing the channel
+			if a.panicked != nil {
+				panicMsg = strings.ReplaceAll(fmt.Sprint(a.panicked), " ", "-")
+				mainDead = true
+				mainPt = 29
+				mainWake = nil
+				readRet = nil
+				if moved == "main" {
+					movedDone = true
+				}
+			}
 		case a.point == 30:
 			cbs = append(cbs, &cbState{wake: a.wake, pt: 30})
 			if waitingX {
@@ -427,10 +441,15 @@ func runSchedule(labels []string) (actual []string, obs string, unplanned int) {
 				if a.panicked != nil {
 					items = append(items, "panic:"+strings.ReplaceAll(fmt.Sprint(a.panicked), " ", "-"))
 				}
+			case 19:
+				if a.panicked != nil {
+					items = append(items, "panic:"+strings.ReplaceAll(fmt.Sprint(a.panicked), " ", "-"))
+					mainDead = true
+				}
 			}
 		}
 	drain:
-		for out != nil || finished < started {
+		for (out != nil && !mainDead) || finished < started {
 			select {
 			case seq, ok := <-out:
 				take(seq, ok)
